@@ -614,7 +614,8 @@ class XPathToken(Token[ta.XPathTokenType]):
                             Duration, AbstractBinary, AbstractDateTime):
                     if isinstance(op1, cls) or isinstance(op2, cls):
                         if not isinstance(op1, cls) or not isinstance(op2, cls) or \
-                                cls in (AbstractBinary, AbstractDateTime) and op1.name != op2.name or \
+                                cls in (AbstractBinary, AbstractDateTime) and \
+                                op1.name.replace('Stamp', '') != op2.name.replace('Stamp', '') or \
                                 cls is Duration and self.symbol not in ('=', '!=') and \
                                 (type(op1) is not type(op2) or type(op1) is Duration):
                             raise TypeError(msg.format(type(op1), type(op2)))
